@@ -7,6 +7,7 @@ import (
 	"fmt"
 	"io"
 	"os"
+	"os/exec"
 	"path/filepath"
 	"regexp"
 	"strings"
@@ -358,7 +359,12 @@ var fileCases = []string{
 	"write-missing-dir", "write-to-dir", "write-badext", "write-empty",
 	"write-devfull-srt", "write-devfull-vtt", "write-devfull-ssa", "write-devfull-stl", "write-devfull-ttml",
 	"write-ok-srt", "write-ok-vtt", "write-ok-ssa", "write-ok-stl", "write-ok-ttml",
+	// the repository's command line tool on top of the helpers (exit status is its only error channel)
+	"cli-convert-ok", "cli-open-missing", "cli-write-devfull", "cli-write-missing-dir", "cli-merge-second-missing",
 }
+
+// cliPath is the CLI built from the tree under test ("" = not available).
+var cliPath string
 
 func sampleList() *astisub.Subtitles {
 	s := astisub.NewSubtitles()
@@ -426,6 +432,59 @@ func checkC18File(name, dir string) (v *Violation, note string) {
 			return nil, "skipped: " + err.Error()
 		}
 		return expectErr("Write to "+filepath.Base(p)+" -> /dev/full (ENOSPC on the first write)", func() error { return sampleList().Write(p) }), ""
+	case strings.HasPrefix(name, "cli-"):
+		if cliPath == "" {
+			return nil, "skipped: CLI binary not available"
+		}
+		in := filepath.Join(dir, "in.srt")
+		_ = os.WriteFile(in, []byte("1\n00:00:01,000 --> 00:00:02,000\ncue 0\n\n2\n00:00:03,000 --> 00:00:04,000\ncue 1\n\n3\n00:00:05,000 --> 00:00:06,000\ncue 2\n"), 0o644)
+		run := func(args ...string) (int, string) {
+			cmd := exec.Command(cliPath, args...)
+			out, err := cmd.CombinedOutput()
+			if err == nil {
+				return 0, string(out)
+			}
+			if ee, ok := err.(*exec.ExitError); ok {
+				return ee.ExitCode(), string(out)
+			}
+			return -1, err.Error()
+		}
+		switch name {
+		case "cli-convert-ok":
+			outp := filepath.Join(dir, "out.vtt")
+			rc, o := run("convert", "-i", in, "-o", outp)
+			if rc != 0 {
+				return nil, "fault-free CLI convert failed (" + trunc(o, 100) + "): not a C18 matter"
+			}
+			b, _ := os.ReadFile(outp)
+			if why := completeSink("vtt", b, 3, "2"); why != "" {
+				return mk("CLI convert exited 0 but " + why), ""
+			}
+		case "cli-open-missing":
+			if rc, _ := run("convert", "-i", filepath.Join(dir, "missing.srt"), "-o", filepath.Join(dir, "o.vtt")); rc == 0 {
+				return mk("CLI convert of a missing input exited 0"), ""
+			}
+		case "cli-write-devfull":
+			if _, err := os.Stat("/dev/full"); err != nil {
+				return nil, "skipped: no /dev/full"
+			}
+			p := filepath.Join(dir, "full.vtt")
+			if err := os.Symlink("/dev/full", p); err != nil {
+				return nil, "skipped: " + err.Error()
+			}
+			if rc, _ := run("convert", "-i", in, "-o", p); rc == 0 {
+				return mk("CLI convert to a full device (ENOSPC) exited 0"), ""
+			}
+		case "cli-write-missing-dir":
+			if rc, _ := run("convert", "-i", in, "-o", filepath.Join(dir, "nodir", "o.vtt")); rc == 0 {
+				return mk("CLI convert into a missing directory exited 0"), ""
+			}
+		case "cli-merge-second-missing":
+			if rc, _ := run("merge", "-i", in, "-i", filepath.Join(dir, "missing2.srt"), "-o", filepath.Join(dir, "m.vtt")); rc == 0 {
+				return mk("CLI merge with a missing second input exited 0"), ""
+			}
+		}
+		return nil, ""
 	case strings.HasPrefix(name, "write-ok-"):
 		ext := strings.TrimPrefix(name, "write-ok-")
 		p := filepath.Join(dir, "ok."+ext)
@@ -832,6 +891,11 @@ func RunC18(cfg Config) (*ShardResult, error) {
 		}
 	}
 	// ---------- D. file-level helpers on the real OS
+	if p := filepath.Join(cfg.Bins, "astisub-cli"); cfg.Bins != "" {
+		if _, err := os.Stat(p); err == nil {
+			cliPath = p
+		}
+	}
 	for _, name := range fileCases {
 		if !cfg.Mine(Key64("file", name)) {
 			continue
@@ -888,7 +952,12 @@ func CheckC18Scenario(sc C18Scenario, scratch string) *Violation {
 	return nil
 }
 
-func replayC18(rf ReplayFile) (*Violation, error) {
+func replayC18(cfg Config, rf ReplayFile) (*Violation, error) {
+	if p := filepath.Join(cfg.Bins, "astisub-cli"); cfg.Bins != "" {
+		if _, err := os.Stat(p); err == nil {
+			cliPath = p
+		}
+	}
 	var sc C18Scenario
 	if err := json.Unmarshal(rf.Scenario, &sc); err != nil {
 		return nil, err
